@@ -56,6 +56,18 @@ CLAIMED = {
             "Theorems in lean/NodisVerif/Props/C19.lean (39): scan_complete / sscan / hscan / zscan (every element present for the whole iteration is returned, only live matching ones), scan_terminates with the call bound, in-memory vs storage-only values give the same result. Known findings kept with witnesses: positional cursor skips a key when an earlier key is deleted mid-iteration (A-121), embedded-API COUNT 0 never terminates (A-120b). Correspondence: scanall runs the whole cursor loop on the real server and on the model and compares the multiset and the number of calls.",
             "Lean kernel + 3 standard axioms; correspondence run; iteration under concurrent mutation is only covered by the stated known finding, not by a positive theorem.",
             "DESIGN.md §6 C19"),
+    "C05": ("Lean 4 proof about a transition-system model of the locking protocol (tx.go / store.go) for every trace of any number of transactions, keys and records + trace correspondence (every protocol step the real code reports through its verifTrace hook must be a step of the model) + concurrent scenarios with invariants on the real code",
+            "Theorems in lean/NodisVerif/Props/C05.lean (23): mutual_exclusion / write_lock_exclusive (a write-held record has no other holder), valid_means_current + held_record_stays_registered (a record that passed re-validation is the record registered under its key and stays so until its holder unlinks it or a flush), one_registered_record_per_key, per_key_writers_serial (two transactions never hold the current record of one key unless both read), creators of a missing key are serialized through one placeholder, no_stale_update_example (the lost-update schedule of the original code is rejected by the model). The model is tied to the code by replaying the recorded event trace of every scenario run (lookup, claim, wait, lock, validation, publish, unlink, drop, unlock; 10^5-10^6 events per run of the check) through Proto.step. Scenarios: N concurrent INCRs / pushes on a fresh key, pops racing pushes while the list is emptied and unlinked, create/delete churn, the same over TCP; race windows widened by a hook.",
+            "Lean kernel + 3 standard axioms; the protocol model is hand-written and tied by trace inclusion on the schedules that actually ran (not by a proof about the Go code); data accesses are assumed to happen only between acquire's return and the commit (structural in exec(): fn(tx) then deferred commit); Go's sync.RWMutex is modelled as an ideal reader/writer lock; linearizability of each command's effect on the value is the sequential refinement of C01-C04 composed with per-key exclusion.",
+            "DESIGN.md §6 C05"),
+    "C06": ("Lean 4 proof of deadlock freedom of the locking protocol model (waits-for relation acyclic in every reachable state, some transaction can always move, a commit releases everything) + trace correspondence + command mixes with overlapping key sets under a progress watchdog",
+            "Theorems in lean/NodisVerif/Props/C06.lean (17): waits_increase (a blocked transaction holds only keys smaller than the one it waits for), awaited_keys_increase along waits-for edges, no_deadlock (no closed walk of any length in waitsFor, self-loops included), someone_can_move (progress), commit_releases_everything / commit_can_finish (a failing or panicking command - deferred commit - releases all it held), classic_deadlock_rejected (the a-b / b-a schedule is not a run of the model). Tie: the recorded trace must be accepted by the model - a lock requested out of order is a rejected `wait` event even when the run did not deadlock. Scenarios: RENAME / RPOPLPUSH / SMOVE in opposite orders, self-aliasing commands, Z*STORE with destination among the operands, eviction, flush, FLUSHDB, KEYS/SCAN, wrong-type panics, embedded API and TCP; a run is hung when no protocol step happens for 10 s.",
+            "Lean kernel + 3 standard axioms; trace inclusion as for C05; termination of each command body (no unbounded loop while holding locks) is not in the model - GEORADIUS's loop was repaired separately; fairness of Go's RWMutex (writer preference) is assumed for 'bounded time'; blocking pops are C18.",
+            "DESIGN.md §6 C06"),
+    "C07": ("Lean 4 proof of strict two-phase locking for the protocol model (no validated lock released before the commit, all keys held together at the lock point, conflict order follows commit order, conflict graph acyclic) + trace correspondence + observers of multi-key commands on the real code",
+            "Theorems in lean/NodisVerif/Props/C07.lean (17): no_early_release, growing_phase_is_over, lock_point / lock_point_trace / lock_point_all_held, precedence_follows_commit_order, conflict_graph_acyclic (for traces whose transaction ids begin once, which the recorder guarantees), moves_hold_both (while a transaction write-holds the registered records of two keys nobody else holds either). A TryLock taken during commit only to drop an unused placeholder is excluded from 'acquisition' (precedence_with_trylock_finding shows why; it touches no value). Scenarios: SUNION / EXISTS / MGET observers of SMOVE / RENAME / MSET+DEL must see the moved member / name exactly once, RPOPLPUSH in both directions conserves the multiset, SUNIONSTORE / SINTERSTORE / ZUNIONSTORE over operands that change together always store a result of one snapshot.",
+            "Lean kernel + 3 standard axioms; trace inclusion as for C05; which keys a command declares is read off the run (a command that forgot to declare a key shows up as an out-of-order `wait`), not proved per command.",
+            "DESIGN.md §6 C07"),
 }
 NOT_YET = {
 }
